@@ -196,7 +196,9 @@ def run_tlc(
                 f.write(cfg_text)
         else:
             cfg_path = os.path.join(spec_dir, cfg or (module + ".cfg"))
-        cmd = ["java", "-XX:+UseParallelGC", "-Xss16m"]
+        jtmp = os.path.join(scratch, "jtmp")          # TLC unpacks its standard modules into java.io.tmpdir: keep that inside the scratch dir
+        os.makedirs(jtmp, exist_ok=True)
+        cmd = ["java", "-XX:+UseParallelGC", "-Xss16m", "-Djava.io.tmpdir=" + jtmp]
         cmd += java_opts or []
         cmd += ["-cp", JAR, "tlc2.TLC", "-workers", str(workers), "-metadir", os.path.join(scratch, "meta"),
                 "-noGenerateSpecTE", "-config", cfg_path]
